@@ -76,7 +76,8 @@ MANIFEST = {
             'scheduler.'
             '  Exec requests carry pre_exec statements (import, export, print): their output is captured, their exports undone.'
             "  The master's task service: `_run_task` on service threads while the results go through `_result_cb` on a getter thread, possibly at once - every answered request returns, no bookkeeping is left."
-            '  State updates for executable requests carry the raptor id they were addressed with (none, empty, this master, any master `*`): each is advanced exactly once.',
+            '  State updates for executable requests carry the raptor id they were addressed with (none, empty, this master, any master `*`): each is advanced exactly once.'
+            '  Two thirds of the worker cases with GPUs run with a non-identity CUDA_VISIBLE_DEVICES exported to the worker (the node GPUs it was placed on).',
     'note': 'objects are built with __new__ plus constructor attributes; the '
             'ZMQ queues are the in-memory shim; quiescence is decided '
             'logically (request processes exited, sentinel passed the result '
@@ -1139,8 +1140,19 @@ def gen_worker_case(rng):
         k = rng.choice([1, 1, 2, 3, n])
         bulks.append([r['uid'] for r in reqs[i:i + k]])
         i += k
-    return {'n_cores': n_cores, 'n_gpus': n_gpus, 'requests': reqs,
+    case = {'n_cores': n_cores, 'n_gpus': n_gpus, 'requests': reqs,
             'bulks': bulks, 'seed': rng.randint(0, 2 ** 30)}
+    # the agent's executor exports the node GPUs the worker was placed on:
+    # unset (no GPUs), the identity (0..n-1), or any other subset of the node
+    case['cuda_visible'] = None
+    if n_gpus and case['seed'] % 3:
+        first = 1 + case['seed'] % 4
+        step  = 1 + (case['seed'] >> 3) % 2
+        devs  = [first + step * i for i in range(n_gpus)]
+        if (case['seed'] >> 5) % 2:
+            devs.reverse()
+        case['cuda_visible'] = ','.join(str(d) for d in devs)
+    return case
 
 
 def request_task(req):
@@ -1581,6 +1593,12 @@ def run_worker_case(case, res, workdir):
     wd = os.path.join(workdir, 'wk')
     shutil.rmtree(wd, ignore_errors=True)
     os.makedirs(wd)
+    saved_cvd = os.environ.get('CUDA_VISIBLE_DEVICES')
+    if case.get('cuda_visible'):
+        os.environ['CUDA_VISIBLE_DEVICES'] = case['cuda_visible']
+        res.count('worker_cases_with_device_subset')
+    else:
+        os.environ.pop('CUDA_VISIBLE_DEVICES', None)
     rig = WorkerRig(wd, case['n_cores'], case['n_gpus'], case['seed'], res)
     trace = os.path.join(wd, 'payload.trace')
     with open(os.path.join(wd, 'c20_blocker'), 'w') as fout:
@@ -1600,6 +1618,10 @@ def run_worker_case(case, res, workdir):
         return ok, rig.mon.max_live
     finally:
         rig.close()
+        if saved_cvd is None:
+            os.environ.pop('CUDA_VISIBLE_DEVICES', None)
+        else:
+            os.environ['CUDA_VISIBLE_DEVICES'] = saved_cvd
         os.chdir(workdir)
         shutil.rmtree(wd, ignore_errors=True)
 
